@@ -15,6 +15,10 @@ import (
 	_ "verif/harness/props/c34"
 	_ "verif/harness/props/c35"
 	_ "verif/harness/props/c36"
+	_ "verif/harness/props/c37"
+	_ "verif/harness/props/c38"
+	_ "verif/harness/props/c44"
+	_ "verif/harness/props/c46"
 	_ "verif/harness/props/c47"
 	_ "verif/harness/props/c48"
 )
